@@ -214,6 +214,15 @@ impl Pool {
 			10 => self.ntp(i).map(|(n, d)| CVal::NameType(n, d)),
 			11 => match self.get(i)? { PE::Module(n) => self.u(*n).map(CVal::Module), _ => None },
 			12 => match self.get(i)? { PE::Package(n) => self.u(*n).map(CVal::Package), _ => None },
+			// the narrowing accessors of element values (JVMS 4.7.16.1: B C S Z I are CONSTANT_Integer, read as that type)
+			13 => match self.get(i)? { PE::Int(v) => Some(CVal::Int(*v)), _ => None },
+			14 => match self.get(i)? { PE::Int(v) => Some(CVal::Int(*v as i8 as i32)), _ => None },
+			15 => match self.get(i)? { PE::Int(v) => Some(CVal::Int(*v as u16 as i32)), _ => None },
+			16 => match self.get(i)? { PE::Int(v) => Some(CVal::Int(*v as i16 as i32)), _ => None },
+			17 => match self.get(i)? { PE::Int(v) => Some(CVal::Int((*v != 0) as i32)), _ => None },
+			18 => match self.get(i)? { PE::Long(v) => Some(CVal::Long(*v)), _ => None },
+			19 => match self.get(i)? { PE::Float(v) => Some(CVal::Float(*v)), _ => None },
+			20 => match self.get(i)? { PE::Double(v) => Some(CVal::Double(*v)), _ => None },
 			_ => None,
 		}
 	}
@@ -364,9 +373,12 @@ pub fn jvms_wide_entry(op: u8) -> Entry {
 #[derive(Clone, Copy, Debug, PartialEq)]
 pub enum Form { Plain(u8), Wide(u8) }
 #[derive(Clone, Copy, Debug, PartialEq)]
-pub struct Choice { pub form: Form, pub fill: u8 }
+/// `fill`: the values of the bytes the reader ignores, in the order they stand in the instruction (two for
+/// invokeinterface / invokedynamic, up to three of switch padding)
+pub struct Choice { pub form: Form, pub fill: [u8; 3] }
 pub fn g_choice(c: &Choice) -> String {
-	match c.form { Form::Plain(op) => format!("{{| c_form := FPlain {op}; c_fill := {} |}}", c.fill), Form::Wide(op) => format!("{{| c_form := FWide {op}; c_fill := {} |}}", c.fill) }
+	let f = format!("[{}; {}; {}]", c.fill[0], c.fill[1], c.fill[2]);
+	match c.form { Form::Plain(op) => format!("{{| c_form := FPlain {op}; c_fill := {f} |}}"), Form::Wide(op) => format!("{{| c_form := FWide {op}; c_fill := {f} |}}") }
 }
 
 pub fn pad_of(pos: usize) -> usize { 3 - pos % 4 }
@@ -389,11 +401,12 @@ pub fn layout(ch: &[Choice], body: &[Insn<usize>]) -> Vec<usize> {
 	v
 }
 
-fn enc_ops(lay: &[usize], pos: usize, fill: u8, rs: &[Rd], ops: &[Op<usize>]) -> Option<Vec<u8>> {
+fn enc_ops(lay: &[usize], pos: usize, fill: [u8; 3], rs: &[Rd], ops: &[Op<usize>]) -> Option<Vec<u8>> {
+	let mut skipped = 0usize;
 	let mut o = vec![];
 	let mut it = ops.iter();
 	for r in rs {
-		if *r == Rd::Skip8 { o.push(fill); continue; }
+		if *r == Rd::Skip8 { o.push(fill.get(skipped).copied().unwrap_or(0)); skipped += 1; continue; }
 		let op = it.next()?;
 		match (r, op) {
 			(Rd::U8 | Rd::Lv8, Op::N(n)) if *n < 256 => o.push(*n as u8),
@@ -430,14 +443,14 @@ pub fn enc1(lay: &[usize], pos: usize, c: &Choice, i: &Insn<usize>) -> Option<Ve
 		Insn::TSw { d, lo, hi, tbl } => {
 			if lo > hi || tbl.len() as i64 != *hi as i64 - *lo as i64 + 1 { return None; }
 			let mut o = vec![0xaa];
-			o.extend(std::iter::repeat(c.fill).take(pad_of(pos)));
+			o.extend(c.fill.iter().copied().take(pad_of(pos)));
 			o.extend(off(d)?.to_be_bytes()); o.extend(lo.to_be_bytes()); o.extend(hi.to_be_bytes());
 			for t in tbl { o.extend(off(t)?.to_be_bytes()); }
 			Some(o)
 		}
 		Insn::LSw { d, pairs } => {
 			let mut o = vec![0xab];
-			o.extend(std::iter::repeat(c.fill).take(pad_of(pos)));
+			o.extend(c.fill.iter().copied().take(pad_of(pos)));
 			o.extend(off(d)?.to_be_bytes()); o.extend((pairs.len() as i32).to_be_bytes());
 			for (k, t) in pairs { o.extend(k.to_be_bytes()); o.extend(off(t)?.to_be_bytes()); }
 			Some(o)
